@@ -5,7 +5,8 @@
    (v3/server.rs, v5/server.rs) and the client keep-alive loop (v3|v5/client/connection.rs).
 
    Assumption about ntex-io (not modelled further): ONE restartable timer slot per connection:
-   `start_timer(d)` replaces any pending timer with one that is due d seconds later (d = 0 cancels),
+   `start_timer(d)` replaces any pending timer with one that is due d seconds later (d = 0 cancels;
+   a pending timer due at that second or the next one is kept),
    `stop_timer` cancels, the timer wheel calls `notify_timeout` when a timer is due (that sets the
    DSP_TIMEOUT flag; the flag is handed to the dispatcher as RecvError::KeepAlive by the next
    poll_recv_decode that decodes no item, or as IoStatusUpdate::KeepAlive by poll_read_pause).
@@ -53,9 +54,14 @@ Definition set_timer (s : tstate) (t : option N) : tstate :=
   mkT (ka_enabled s) (ka_timeout s) (read_timeout s) (read_remains s) (read_remains_prev s)
       (read_max_timeout s) t (dsp_timeout s) (now s) (stopped s).
 
-(* IoRef::start_timer *)
+(* IoRef::start_timer: zero cancels; a pending timer that is due at the requested second or one second
+   later is kept (TimerHandle::update: `self.0 == new_hnd || self.0 == new_hnd + 1`), otherwise replaced *)
 Definition start_timer (s : tstate) (d : N) : tstate :=
-  set_timer s (if d =? 0 then None else Some (now s + d)).
+  set_timer s (if d =? 0 then None
+               else match timer s with
+                    | Some dl => if (dl =? now s + d) || (dl =? now s + d + 1) then Some dl else Some (now s + d)
+                    | None => Some (now s + d)
+                    end).
 
 (* DispatcherInner::stop: io.stop_timer() *)
 Definition halt (s : tstate) : tstate :=
